@@ -18,7 +18,9 @@ RULE = ('Requester: a real client with honor_lease=True and request_queue_size i
         'order - the wire order of request frames equals the model\'s release order; every stream id carries at most one '
         'request frame. Granter: a real server with a lease publisher against a raw client that set the lease flag; the '
         'LEASE frames on its wire are, in order, exactly the published leases with number_of_requests == n and '
-        'time_to_live == round(ttl in ms). Non-trivial = >= 2 leases of which one expired or was exhausted with requests '
+        'time_to_live == round(ttl in ms). Reconnecting requester: the C17 reconnect histories with a lease-honouring client '
+        '(leases left over, used up, or requests waiting for one when the connection ends): on every connection no request '
+        'frame leaves before that connection\'s own first LEASE arrived, and never more than it grants. Non-trivial = >= 2 leases of which one expired or was exhausted with requests '
         'still queued; distinct = timeline hash.')
 ASSUMPTIONS = ['datetime.now() of rsocket.lease is virtualised by rebinding the module-level name',
                'no request(n)/cancel on a lease-blocked stream (D11, judged by C08)',
@@ -213,10 +215,62 @@ def judge_granter(case):
     return out, True, ['role=granter', 'leases=%d' % len(case['leases'])]
 
 
+def reconnect_cases():
+    """C17's reconnect histories with a lease-honouring client: every connection starts without a lease."""
+    from harness.checks import c17
+
+    def force(case):
+        case = dict(case, lease=True, endings=[dict(e) for e in case['endings']])
+        for i, e in enumerate(case['endings']):
+            e.setdefault('starve', bool(i % 2))
+        return {'reconnect': case}
+
+    return c17.cases().map(force)
+
+
+def judge_reconnect(wrapped):
+    from harness.checks import c17
+    from harness import monitors
+    case = wrapped['reconnect']
+    prog, plan = c17.build(case)
+    tr = run_program(prog)
+    out = []
+    # per connection of the client: no request frame leaves before that connection's first LEASE arrived, and under each
+    # lease at most its count
+    leases = {}
+    budget = {}
+    sent_before = {}
+    for e in tr.world.log:
+        if e['side'] != 'c' or e['ev'] not in ('send', 'recv'):
+            continue
+        cx = e.get('cx', 0)
+        f = e['f']
+        if e['ev'] == 'recv' and f['type'] == 'LEASE':
+            leases.setdefault(cx, []).append(e)
+            budget[cx] = f.get('count', 0)
+        elif e['ev'] == 'send' and f['type'] in monitors.REQ_TYPES:  # (continuation fragments are PAYLOAD frames)
+            if cx not in leases:
+                sent_before.setdefault(cx, []).append(f['type'])
+            else:
+                budget[cx] -= 1
+                if budget[cx] < 0:
+                    out.append(viol('more_requests_than_granted', 'C14:over_grant:reconnect', cx=cx, type=f['type']))
+                    budget[cx] = 10 ** 9
+    for cx, types in sent_before.items():
+        out.append(viol('request_before_first_lease_of_connection', 'C14:before_first_lease:reconnect', cx=cx, types=types[:5],
+                        endings=[e['kind'] for e in case['endings']]))
+    nrec = len(case['endings'])
+    return out, nrec >= 1, ['role=requester', 'part=reconnect', 'reconnects=%d' % nrec]
+
+
 info = {}
 
 
 def prop(case):
+    if 'reconnect' in case:
+        vs, nt, classes = judge_reconnect(case)
+        info['nt'], info['classes'] = nt, classes
+        return vs
     if 'events' in case:
         vs, nt, classes = judge_requester(case)
     else:
@@ -248,7 +302,7 @@ def shard(tier, seed, n, which):
             for v in common.judge(stats, known, c, vs):
                 stats.violations.append((v, c))
         return stats
-    strat = timelines() if which == 'requester' else granter_cases()
+    strat = {'requester': timelines, 'granter': granter_cases, 'reconnect': reconnect_cases}[which]()
     common.hyp_search(stats, known, strat, prop, n, seed, classify=classify, shrink=True)
     return stats
 
@@ -260,6 +314,7 @@ def run(tier, seed):
     jobs = [dict(tier=tier, seed=0, n=0, which='regression')]
     for i, s in enumerate(seeds):
         jobs.append(dict(tier=tier, seed=s, n=total // len(seeds), which='granter' if i % 4 == 3 else 'requester'))
+    jobs += [dict(tier=tier, seed=s + 5, n=(320 if tier == 'quick' else 8000) // 4, which='reconnect') for s in seeds[:4]]
     stats = common.run_shards(__name__, 'shard', jobs)
     return common.finish(PID, tier, seed, LEVEL, RULE, stats, t0, ASSUMPTIONS)
 
